@@ -13,6 +13,7 @@ link type) x 2 store classes x with/without state x relink on/off.  Oracle, per 
 usage: checkout_converge.py [N]   (seed from VERIF_SEED) -> JSON report, last line of stdout
 """
 import logging; logging.disable(logging.CRITICAL)  # noqa: E702
+import _memfs  # noqa: E402
 import hashlib, json, os, random, shutil, sys, tempfile  # noqa: E401
 
 SRC = os.environ.get("PYVC_REPO_SRC", "/repo/src")
@@ -226,6 +227,7 @@ def main():
     rng = random.Random(int(os.environ.get("VERIF_SEED", "1")))
     failures, evals = [], 0
     for i in range(n):
+        _memfs.reset()
         sc = scenario(rng, i)
         ps = run_one(sc)
         evals += 1
